@@ -162,6 +162,36 @@ def linksOk (d : Dump) : Nat → List Nat → Bool
     | some (.leaf pr nx _) => pr == p && nx == ls.headD 0 && linksOk d l ls
     | _ => false
 
+def Page.prev : Page → Nat
+  | .leaf p _ _ => p
+  | .interior p _ _ _ => p
+
+def Page.next : Page → Nat
+  | .leaf _ n _ => n
+  | .interior _ n _ _ => n
+
+/-- pages of level `n` below (and including) a page head, in key order; `head = false` for the continuation of a page -/
+def T.levelAux : Nat → Bool → T → List Nat
+  | n, _, .leaf id _ => if n = 0 then [id] else []
+  | 0, head, .last id _ => if head then [id] else []
+  | n + 1, _, .last _ r => r.levelAux n true
+  | 0, head, .cons id _ _ _ => if head then [id] else []
+  | n + 1, _, .cons _ ch _ rest => ch.levelAux n true ++ rest.levelAux (n + 1) false
+
+def T.level (t : T) (n : Nat) : List Nat := t.levelAux n true
+
+/-- sibling chain of any level (the code keeps `prev`/`next` on interior pages too and uses them in `balance`) -/
+def chainOk (d : Dump) : Nat → List Nat → Bool
+  | _, [] => true
+  | p, l :: ls =>
+    match d.page l with
+    | some pg => pg.prev == p && pg.next == ls.headD 0 && chainOk d l ls
+    | none => false
+
+/-- every level of the tree is linked in key order -/
+def levelsLinked (d : Dump) (t : T) : Bool :=
+  (List.range ((t.height.getD 0) + 1)).all fun n => chainOk d 0 (t.level n)
+
 /-- merge of two lists (fuel = sum of the lengths is enough; structural recursion so that the kernel can evaluate it) -/
 def mergeF : Nat → List Nat → List Nat → List Nat
   | 0, xs, ys => xs ++ ys
@@ -183,13 +213,19 @@ def msort : Nat → List Nat → List Nat
 /-- no page id occurs twice (sort, then compare neighbours) -/
 def distinct (l : List Nat) : Bool := ascending (msort l.length l)
 
+/-- no leaf without cells, except a root that is itself an (empty) leaf -/
+def T.noEmptyLeaf : T → Bool
+  | .leaf _ _ => true
+  | t => t.leafList.all fun p => !p.2.isEmpty
+
 /-- the tree read from the root -/
 def treeOf (d : Dump) : Option T := extract d d.fuel d.root
 
 /-- The decision procedure applied to every dump of the real tree. -/
 def checkT (d : Dump) (t : T) : Bool :=
   t.bounded none none && t.sepsAscending && t.height.isSome && distinct t.ids &&
-    !(t.ids.contains 0) && linksOk d 0 (t.leafList.map (·.1)) && decide (t.leafList.length < d.fuel)
+    !(t.ids.contains 0) && linksOk d 0 (t.leafList.map (·.1)) && decide (t.leafList.length < d.fuel) &&
+    levelsLinked d t && t.noEmptyLeaf
 
 def checkTree (d : Dump) : Bool :=
   match treeOf d with
@@ -272,6 +308,37 @@ def leafScan (d : Dump) : List (Nat × Val) :=
   match leftmost d d.fuel d.root with
   | none => []
   | some l => scanFrom d d.fuel l
+
+/-- `get_right_most`: follow the right child down to a leaf -/
+def rightmost (d : Dump) : Nat → Nat → Option Nat
+  | 0, _ => none
+  | fuel + 1, id =>
+    match d.page id with
+    | none => none
+    | some (.leaf _ _ _) => some id
+    | some (.interior _ _ right _) => rightmost d fuel right
+
+/-- the backward iterator (`into_iter_backward` + `next_back`): the cells of a leaf from last to first, then
+    `prev_sibling`. `none` = the code panics or fails: it computes `num_slots - 1` on every leaf it enters, so a leaf
+    without cells is fatal (usize underflow), and a page that is not a leaf is an error. -/
+def scanBackFrom (d : Dump) : Nat → Nat → Option (List (Nat × Val))
+  | 0, _ => some []
+  | fuel + 1, id =>
+    if id = 0 then some []
+    else
+      match d.page id with
+      | some (.leaf pr _ cells) =>
+        if cells.isEmpty then none
+        else (scanBackFrom d fuel pr).map fun r => (leafEntries cells).reverse ++ r
+      | _ => none
+
+def leafScanBack (d : Dump) : Option (List (Nat × Val)) :=
+  match d.page d.root with
+  | some (.leaf _ _ []) => some []          -- `BtreeEmpty`, reported as an empty scan
+  | _ =>
+    match rightmost d d.fuel d.root with
+    | none => none
+    | some l => scanBackFrom d d.fuel l
 
 /-! ### The spec map: a key-sorted association list -/
 
